@@ -159,6 +159,15 @@ pub fn policy_of(name: &str) -> mrecordlog::PersistPolicy {
             interval: Duration::from_nanos(0),
             action: PersistAction::FlushAndFsync,
         },
+        // an interval of the order of one call: whether a given call persists depends on the clock
+        "on_delay_us_flush" => PersistPolicy::OnDelay {
+            interval: Duration::from_micros(60),
+            action: PersistAction::Flush,
+        },
+        "on_delay_us_fsync" => PersistPolicy::OnDelay {
+            interval: Duration::from_micros(60),
+            action: PersistAction::FlushAndFsync,
+        },
         "on_delay_long_flush" => PersistPolicy::OnDelay {
             interval: Duration::from_secs(3600),
             action: PersistAction::Flush,
@@ -171,7 +180,9 @@ pub fn policy_of(name: &str) -> mrecordlog::PersistPolicy {
     }
 }
 
-pub const POLICIES: [&str; 7] = [
+pub const POLICIES: [&str; 9] = [
+    "on_delay_us_flush",
+    "on_delay_us_fsync",
     "always_flush",
     "always_fsync",
     "do_nothing",
